@@ -595,12 +595,14 @@ def main(ctx):
                                       transport=tr, init_store=init3, units=2,
                                       seed=ctx.seed))
     for name, cf, sf, labels in fixed_fwd:
-        r = drv.replay_fwd(labels, cf, sf, workdir=tlc.WORK, seed=ctx.seed)
-        nfixed += 1
-        ctx.count(('fixed', name))
-        rep.add('fwd', r, dict(kind='fwd', labels=labels, client_fwd=cf,
-                               server_fwd=sf, seed=ctx.seed,
-                               form=r.get('form')))
+        # every way the application can spell the client option
+        for form in (drv.FORMS_ON if cf else drv.FORMS_OFF):
+            r = drv.replay_fwd(labels, cf, sf, workdir=tlc.WORK,
+                               seed=ctx.seed, form=form)
+            nfixed += 1
+            ctx.count(('fixed', name, form))
+            rep.add('fwd', r, dict(kind='fwd', labels=labels, client_fwd=cf,
+                                   server_fwd=sf, seed=ctx.seed, form=form))
     for clause, text in drv.misc_cases():
         ctx.violation({'module': 'Agent', 'part': 'misc', 'clause': clause},
                       f'{clause} [misc] {text}', replay=dict(kind='misc'))
